@@ -76,6 +76,17 @@ func (u c06Uni) alphabet() (ops []mOp, inGuard []bool) {
 		add(mOp{Kind: "removemany", Pt: u.Pt, R1: b}, true)
 	}
 	add(mOp{Kind: "addmanyex", Pt: u.Pt, R1: [][]string{R[0], R[1], R[2], R[3]}}, true)
+	// removal batches of three and four rules named in orders that are neither list order nor its reverse
+	for _, q := range [][]int{{1, 3, 0}, {2, 0, 3}, {3, 1, 2}, {0, 2, 1}, {2, 0, 3, 1}, {1, 3, 0, 2}, {0, 0, 1}} {
+		var b [][]string
+		for _, i := range q {
+			b = append(b, R[i])
+		}
+		add(mOp{Kind: "removemany", Pt: u.Pt, R1: b}, true)
+	}
+	// filters made of empty values only: every rule is selected
+	add(mOp{Kind: "removefiltered", Pt: u.Pt, Fi: 0, Fvs: []string{""}}, true)
+	add(mOp{Kind: "removefiltered", Pt: u.Pt, Fi: 1, Fvs: make([]string, len(R[0])-1)}, true)
 	for i := range R {
 		for j := range R {
 			if i != j {
